@@ -1,5 +1,5 @@
 (* C16/Proofs.v — lemmas about the sequential cache model. *)
-From Coq Require Import ZArith List Bool Lia Permutation.
+From Coq Require Import ZArith List Bool Lia Permutation Sorted.
 From C16 Require Import Model.
 Import ListNotations.
 Open Scope Z_scope.
@@ -120,6 +120,14 @@ Section Assoc.
     - apply nodup_aremove. exact H.
     - intros Hin. apply keys_aremove in Hin. tauto.
   Qed.
+  Lemma aremove_app (a b : list (name * V)) n : aremove (a ++ b) n = aremove a n ++ aremove b n.
+  Proof. induction a as [|[k v] a IH]; simpl; [reflexivity|]. destruct (name_eqb k n); simpl; rewrite IH; reflexivity. Qed.
+
+  Lemma aremove_idem (l : list (name * V)) n : aremove (aremove l n) n = aremove l n.
+  Proof. apply assoc_aremove_eq. apply assoc_aremove_same. Qed.
+
+  Lemma aremove_aset_same (l : list (name * V)) n v : aremove (aset l n v) n = aremove l n.
+  Proof. unfold aset. rewrite aremove_app, aremove_idem. simpl. rewrite name_eqb_refl. apply app_nil_r. Qed.
 End Assoc.
 
 (* ---------------------------------------------------------------- file system *)
@@ -510,4 +518,414 @@ Section CacheProofs.
       destruct M as [M1 M2 M3 M4 M5 M6 M7 M8 M9 M10 M11].
       constructor; cbn [c_entries c_heap c_mem c_max c_disk]; rewrite ?app_nil_r; try assumption. intros x [].
   Qed.
+
+  (* ---- the future completes ---- *)
+  Definition res1 (r : fres C) (e : entry) : entry :=
+    match e_fut C e with FPending => mkE C (e_writing C e) (e_bytes C e) r | _ => e end.
+
+  Lemma resolve_entries s r :
+    c_entries C (resolve C s r) = map (fun ne => (fst ne, res1 r (snd ne))) (c_entries C s).
+  Proof.
+    unfold resolve. cbn [c_entries]. apply map_ext. intros [k e]. unfold res1. simpl. destruct (e_fut C e); reflexivity.
+  Qed.
+
+  Lemma keys_mapv (g : entry -> entry) es : keys (map (fun ne => (fst ne, g (snd ne))) es) = keys es.
+  Proof. unfold keys. rewrite map_map. reflexivity. Qed.
+
+  Lemma assoc_mapv (g : entry -> entry) es m :
+    assoc (map (fun ne => (fst ne, g (snd ne))) es) m = option_map g (assoc es m).
+  Proof. induction es as [|[k v] es IH]; simpl; [reflexivity|]. destruct (name_eqb k m); [reflexivity | exact IH]. Qed.
+
+  Lemma sumb_mapv (g : entry -> entry) es : (forall e, e_bytes C (g e) = e_bytes C e) ->
+    sumb (map (fun ne => (fst ne, g (snd ne))) es) = sumb es.
+  Proof. intros H. induction es as [|[k v] es IH]; simpl; [reflexivity|]. rewrite H, IH. reflexivity. Qed.
+
+  (* update_file_futures_and_memory, then completion of the future, re-establishes the invariant *)
+  Lemma ufm_inv n s c t :
+    Mid n s [] -> lookup C (c_disk C s) n = Some (File c) -> In n K -> cmem c <= c_max C s ->
+    exists s', ufm C s n (cmem c) t = (s', None) /\ Inv (resolve C s' (FOk c)) /\
+               c_disk C s' = c_disk C s /\ c_max C s' = c_max C s.
+  Proof.
+    intros M Hl HnK Hle. unfold ufm, recover_memory.
+    destruct (cmem c >? c_max C s) eqn:Egt; [rewrite Z.gtb_ltb in Egt; apply Z.ltb_lt in Egt; lia|].
+    destruct (rm_loop_mid n (S (length (c_heap C s))) (cmem c) s [] M ltac:(lia) ltac:(pose proof (Hcm c); lia))
+      as (s1 & Hloop & M1 & Hfit & Hd & Hmx).
+    rewrite Hloop.
+    assert (Ecan : (c_mem C s1 + cmem c <=? c_max C s1) = true) by (apply Z.leb_le; exact Hfit).
+    rewrite Ecan.
+    destruct (mid_pend _ _ _ M1) as (en & A1 & A2 & A3). rewrite A1.
+    eexists. split; [reflexivity|].
+    cbn [c_disk c_max touch]. split; [|split; assumption].
+    rewrite app_nil_r in *.
+    destruct M1 as [N1 N2 _ N4 N5 N6 N7 N8 _ N10 N11]. rewrite app_nil_r in *.
+    set (enew := mkE C false (cmem c) (e_fut C en)).
+    constructor; rewrite ?resolve_entries; unfold resolve; cbn [c_entries c_heap c_mem c_max c_disk touch].
+    - rewrite keys_mapv. apply nodup_aset. exact N1.
+    - rewrite hnames_app. simpl. apply nodup_snoc; [apply nodup_without; exact N2|].
+      intros H. apply hnames_without in H. tauto.
+    - intros m. rewrite keys_mapv, hnames_app, in_app_iff, hnames_without, keys_aset. simpl.
+      split.
+      + intros [[H1 H2]|[H|[]]]; [left; apply N4; exact H1 | right; auto].
+      + intros [H| ->]; [|right; auto]. destruct (name_eq_dec m n) as [->|Hne]; [right; auto|]. left. split; [apply N5; assumption | exact Hne].
+    - intros m e. rewrite assoc_mapv. destruct (name_eq_dec m n) as [->|Hne].
+      + rewrite assoc_aset_same. simpl. intros H. inversion H; subst e. unfold res1, enew. cbn [e_fut e_writing e_bytes].
+        rewrite A2. cbn [e_fut e_writing e_bytes]. split; [reflexivity|]. exists c. rewrite Hd. auto.
+      + rewrite assoc_aset_other by exact Hne. destruct (assoc (c_entries C s1) m) as [e0|] eqn:E0; simpl; [|discriminate].
+        intros H. inversion H; subst e. pose proof (N6 m e0 Hne E0) as Hg. destruct Hg as (G1 & c0 & G2 & G3 & G4).
+        unfold res1. rewrite G2. split; [exact G1|]. exists c0. auto.
+    - rewrite sumb_mapv by (intros e; unfold res1; destruct (e_fut C e); reflexivity).
+      rewrite sumb_aset, N7. reflexivity.
+    - pose proof (Hcm c). lia.
+    - exact N10.
+    - intros m. rewrite keys_mapv, keys_aset. intros [H| ->]; [apply N11; exact H | exact HnK].
+  Qed.
+
+  Lemma file_of_some (o : option (node C)) c : file_of C o = Some c -> o = Some (File c).
+  Proof. destruct o as [[c0|]|]; simpl; intros H; inversion H; reflexivity. Qed.
+
+  (* ---- get_file ---- *)
+  Lemma get_inv s n t : Inv s -> In n K ->
+    exists s', get_file C clen cmem dirsize s n t =
+                 (s', match file_of C (lookup C (c_disk C s) n) with
+                      | None => inr FileNotFound
+                      | Some c => if clen c >? c_max C s then inr MemoryErr else inl c
+                      end) /\
+               Inv s' /\ c_disk C s' = c_disk C s /\ c_max C s' = c_max C s.
+  Proof.
+    intros I HnK. unfold get_file.
+    destruct (inv_disk _ I n HnK) as [Hnd _].
+    destruct (lookup C (c_disk C s) n) as [[c|]|] eqn:El; [| congruence |].
+    2:{ exists s. simpl. auto. }
+    cbn [file_of].
+    destruct (clen c >? c_max C s) eqn:Egt; [exists s; auto|].
+    rewrite Z.gtb_ltb in Egt. apply Z.ltb_ge in Egt.
+    destruct (assoc (c_entries C s) n) as [info|] eqn:Ea.
+    - (* cached *)
+      destruct (inv_good _ I _ _ Ea) as (G1 & c0 & G2 & G3 & G4). rewrite El in G3. inversion G3; subst c0. rewrite G2.
+      eexists. split; [reflexivity|]. split; [|split; reflexivity].
+      destruct I as [I1 I2 I3 I4 I5 I6 I7 I8]. constructor; cbn [touch c_entries c_heap c_mem c_max c_disk]; try assumption.
+      + rewrite hnames_app. simpl. apply nodup_snoc; [apply nodup_without; exact I2|]. intros H. apply hnames_without in H. tauto.
+      + intros m. rewrite hnames_app, in_app_iff, hnames_without. simpl. rewrite <- I3. split.
+        * intros [[H _]|[<-|[]]]; [exact H|]. apply I3. apply assoc_in_keys. congruence.
+        * intros H. destruct (name_eq_dec m n) as [->|Hne]; [right; auto | left; auto].
+    - (* load *)
+      unfold load_task, set_entry. cbn [c_disk c_entries c_heap c_mem c_max]. rewrite El.
+      set (s1 := mkC C (c_disk C s) (aset (c_entries C s) n (mkE C false (clen c) FPending)) (c_heap C s) (c_mem C s) (c_max C s)).
+      assert (M : Mid n s1 []).
+      { destruct I as [I1 I2 I3 I4 I5 I6 I7 I8].
+        assert (Hnh : ~ In n (hnames (c_heap C s))) by (rewrite I3; apply assoc_none_keys; exact Ea).
+        constructor; unfold s1; cbn [c_entries c_heap c_mem c_max c_disk]; rewrite ?app_nil_r.
+        - apply nodup_aset. exact I1.
+        - exact I2.
+        - eexists. split; [apply assoc_aset_same|]. split; [reflexivity|]. intros _. exact Hnh.
+        - intros m Hm. apply keys_aset. left. apply I3. exact Hm.
+        - intros m Hne Hm. apply keys_aset in Hm. destruct Hm as [Hm|Hm]; [apply I3; exact Hm | contradiction].
+        - intros m e Hne Hm. rewrite assoc_aset_other in Hm by exact Hne. apply I4. exact Hm.
+        - rewrite aremove_aset_same, sumb_aremove_none by exact Ea. exact I5.
+        - exact I6.
+        - intros x [].
+        - exact I7.
+        - intros m Hm. apply keys_aset in Hm. destruct Hm as [Hm| ->]; [apply I8; exact Hm | exact HnK]. }
+      destruct (ufm_inv n s1 c t M El HnK ltac:(pose proof (Hcm c); unfold s1; cbn [c_max]; lia)) as (s' & Hu & Hi & Hd & Hm).
+      fold s1. rewrite Hu. eexists. split; [reflexivity|]. split; [exact Hi|].
+      unfold resolve. cbn [c_disk c_max]. split; [rewrite Hd | rewrite Hm]; reflexivity.
+  Qed.
+
+  (* ---- update_file ---- *)
+  Lemma update_inv s n c t : Inv s -> In n K ->
+    if clen c >? c_max C s then update_file C clen cmem s n c t = (s, inr MemoryErr)
+    else exists s', update_file C clen cmem s n c t = (s', inl true) /\ Inv s' /\ c_max C s' = c_max C s /\
+                    lookup C (c_disk C s') n = Some (File c) /\
+                    forall k, In k K -> k <> n -> file_of C (lookup C (c_disk C s') k) = file_of C (lookup C (c_disk C s) k).
+  Proof.
+    intros I HnK. unfold update_file.
+    destruct (clen c >? c_max C s) eqn:Egt; [reflexivity|].
+    rewrite Z.gtb_ltb in Egt. apply Z.ltb_ge in Egt.
+    assert (Hfresh : match assoc (c_entries C s) n with None => true | Some info => negb (e_writing C info) end = true).
+    { destruct (assoc (c_entries C s) n) as [info|] eqn:Ea; [|reflexivity].
+      destruct (inv_good _ I _ _ Ea) as (G1 & _). rewrite G1. reflexivity. }
+    rewrite Hfresh.
+    destruct (write_ok C K (c_disk C s) n c HK (inv_disk _ I) HnK) as (d1 & d2 & Hmk & Hwr & Hok2 & Hl2 & Hoth).
+    (* state after _unload_file *)
+    set (es0 := aremove (c_entries C s) n).
+    set (m0 := match assoc (c_entries C s) n with Some e => c_mem C s - e_bytes C e | None => c_mem C s end).
+    assert (Eu : unload_ C s n = mkC C (c_disk C s) es0 (c_heap C s) m0 (c_max C s)).
+    { unfold unload_, es0, m0. destruct (assoc (c_entries C s) n) eqn:Ea; [reflexivity|].
+      rewrite assoc_aremove_eq by exact Ea. destruct s; reflexivity. }
+    rewrite Eu. unfold set_entry, write_task. cbn [c_disk c_entries c_heap c_mem c_max].
+    rewrite Hmk, Hwr.
+    set (s1 := mkC C d2 (aset es0 n (mkE C true (clen c) FPending)) (c_heap C s) m0 (c_max C s)).
+    assert (Hm0 : m0 = sumb es0).
+    { unfold m0, es0. destruct (assoc (c_entries C s) n) as [e|] eqn:Ea.
+      - rewrite (sumb_aremove _ _ _ (inv_nd _ I) Ea), (inv_mem _ I). reflexivity.
+      - rewrite sumb_aremove_none by exact Ea. apply (inv_mem _ I). }
+    assert (Hm0le : 0 <= m0 <= c_max C s).
+    { pose proof (inv_le _ I) as Hle. split.
+      - rewrite Hm0. apply sumb_nonneg; [apply nodup_aremove; exact (inv_nd _ I)|].
+        intros m e Hm. destruct (name_eq_dec m n) as [->|Hne]; [unfold es0 in Hm; rewrite assoc_aremove_same in Hm; discriminate|].
+        unfold es0 in Hm. rewrite assoc_aremove_other in Hm by exact Hne. eapply good_bytes. apply (inv_good _ I). exact Hm.
+      - unfold m0. destruct (assoc (c_entries C s) n) as [e|] eqn:Ea; [|lia].
+        pose proof (good_bytes _ _ _ (inv_good _ I _ _ Ea)). lia. }
+    assert (M : Mid n s1 []).
+    { destruct I as [I1 I2 I3 I4 I5 I6 I7 I8].
+      constructor; unfold s1; cbn [c_entries c_heap c_mem c_max c_disk]; rewrite ?app_nil_r.
+      - apply nodup_aset. apply nodup_aremove. exact I1.
+      - exact I2.
+      - eexists. split; [apply assoc_aset_same|]. split; [reflexivity|]. cbn [e_writing]. discriminate.
+      - intros m Hm. apply keys_aset. destruct (name_eq_dec m n) as [->|Hne]; [right; reflexivity|].
+        left. apply keys_aremove. split; [apply I3; exact Hm | exact Hne].
+      - intros m Hne Hm. apply keys_aset in Hm. destruct Hm as [Hm|Hm]; [|contradiction].
+        apply keys_aremove in Hm. apply I3. tauto.
+      - intros m e Hne Hm. rewrite assoc_aset_other in Hm by exact Hne. unfold es0 in Hm.
+        rewrite assoc_aremove_other in Hm by exact Hne. destruct (I4 m e Hm) as (G1 & c0 & G2 & G3 & G4).
+        split; [exact G1|]. exists c0. split; [exact G2|]. split; [|exact G4].
+        apply file_of_some. rewrite Hoth; [rewrite G3; reflexivity | apply I8; apply assoc_in_keys; congruence | exact Hne].
+      - rewrite aremove_aset_same. unfold es0. rewrite aremove_idem. exact Hm0.
+      - exact Hm0le.
+      - intros x [].
+      - exact Hok2.
+      - intros m Hm. apply keys_aset in Hm. destruct Hm as [Hm| ->]; [|exact HnK].
+        apply keys_aremove in Hm. apply I8. tauto. }
+    destruct (ufm_inv n s1 c t M Hl2 HnK ltac:(pose proof (Hcm c); unfold s1; cbn [c_max]; lia)) as (s' & Hu & Hi & Hd & Hmx).
+    fold s1. rewrite Hu. eexists. split; [reflexivity|]. split; [exact Hi|].
+    unfold resolve. cbn [c_disk c_max]. rewrite Hd, Hmx. unfold s1. cbn [c_disk c_max].
+    split; [reflexivity|]. split; [exact Hl2 | exact Hoth].
+  Qed.
+
+  (* ---- unload_file ---- *)
+  Lemma unload_inv s n : Inv s -> Inv (unload_file C s n) /\ c_disk C (unload_file C s n) = c_disk C s /\
+                                  c_max C (unload_file C s n) = c_max C s.
+  Proof.
+    intros I. unfold unload_file, unload_. cbn [c_entries c_disk c_heap c_mem c_max].
+    destruct I as [I1 I2 I3 I4 I5 I6 I7 I8].
+    destruct (assoc (c_entries C s) n) as [e|] eqn:Ea.
+    - cbn [c_disk c_max]. split; [|split; reflexivity].
+      assert (Hg : 0 <= e_bytes C e) by (eapply good_bytes; apply I4; exact Ea).
+      assert (Hs : sumb (aremove (c_entries C s) n) = sumb (c_entries C s) - e_bytes C e) by (apply sumb_aremove; assumption).
+      assert (Hnn : 0 <= sumb (aremove (c_entries C s) n)).
+      { apply sumb_nonneg; [apply nodup_aremove; exact I1|]. intros m e0 Hm.
+        destruct (name_eq_dec m n) as [->|Hne]; [rewrite assoc_aremove_same in Hm; discriminate|].
+        rewrite assoc_aremove_other in Hm by exact Hne. eapply good_bytes. apply I4. exact Hm. }
+      constructor; cbn [c_entries c_heap c_mem c_max c_disk].
+      + apply nodup_aremove. exact I1.
+      + apply nodup_without. exact I2.
+      + intros m. rewrite hnames_without, keys_aremove, I3. tauto.
+      + intros m e0 Hm. destruct (name_eq_dec m n) as [->|Hne]; [rewrite assoc_aremove_same in Hm; discriminate|].
+        rewrite assoc_aremove_other in Hm by exact Hne. apply I4. exact Hm.
+      + rewrite Hs, I5. reflexivity.
+      + rewrite I5 in *. lia.
+      + exact I7.
+      + intros m Hm. apply keys_aremove in Hm. apply I8. tauto.
+    - cbn [c_disk c_max]. split; [|split; reflexivity].
+      assert (Hnh : ~ In n (hnames (c_heap C s))) by (rewrite I3; apply assoc_none_keys; exact Ea).
+      rewrite without_absent by exact Hnh.
+      constructor; cbn [c_entries c_heap c_mem c_max c_disk]; assumption.
+  Qed.
+
+  Definition norm_max (mx : Z) : Z := if Z.eqb mx 0 then default_max else mx.
+
+  Lemma open_inv d mx : disk_ok C K d -> 0 <= mx -> Inv (open_cache C d mx).
+  Proof.
+    intros Hd Hmx. unfold open_cache. constructor; cbn [c_entries c_heap c_mem c_max c_disk].
+    - constructor.
+    - constructor.
+    - intros m. simpl. tauto.
+    - intros m e H. discriminate.
+    - reflexivity.
+    - destruct (Z.eqb mx 0) eqn:E; [unfold default_max; lia|]. apply Z.eqb_neq in E. lia.
+    - exact Hd.
+    - intros m [].
+  Qed.
+
+  (* ---------------------------------------------------------------- refinement to a dictionary *)
+  Definition op_ok (o : op C) : Prop :=
+    match o with
+    | OSet n _ _ | OGet n _ | OUnload n => In n K
+    | OReopen mx => 0 <= mx
+    end.
+
+  Definition Rel (s : cache) (sp : sstate C) : Prop :=
+    c_max C s = s_max C sp /\ forall k, In k K -> assoc (s_map C sp) k = file_of C (lookup C (c_disk C s) k).
+
+  Lemma step_refines s sp o : Inv s -> Rel s sp -> op_ok o ->
+    exists s' x, kvs_step C clen cmem dirsize true s o = (s', x) /\
+                 spec_step C clen sp o = (fst (spec_step C clen sp o), x) /\
+                 Inv s' /\ Rel s' (fst (spec_step C clen sp o)).
+  Proof.
+    intros I [Rm Rf] Hok. destruct o as [n c t|n t|n|mx]; cbn [kvs_step spec_step op_ok] in *.
+    - pose proof (update_inv s n c t I Hok) as U. rewrite <- Rm.
+      destruct (clen c >? c_max C s) eqn:Egt.
+      + rewrite U. exists s, (RErr MemoryErr). cbn [fst]. split; [reflexivity|]. split; [reflexivity|]. split; [exact I | split; assumption].
+      + destruct U as (s' & Hu & Hi & Hmx & Hl & Hoth). rewrite Hu. exists s', RSet. cbn [fst]. split; [reflexivity|]. split; [reflexivity|].
+        split; [exact Hi|]. split; cbn [s_max s_map]; [rewrite Hmx; reflexivity|].
+        intros k Hk. destruct (name_eq_dec k n) as [->|Hne].
+        * rewrite assoc_aset_same, Hl. reflexivity.
+        * rewrite assoc_aset_other by exact Hne. rewrite Hoth by assumption. apply Rf. exact Hk.
+    - destruct (get_inv s n t I Hok) as (s' & Hg & Hi & Hd & Hmx). rewrite Hg. rewrite (Rf n Hok), <- Rm.
+      destruct (file_of C (lookup C (c_disk C s) n)) as [c|] eqn:Ef.
+      + destruct (clen c >? c_max C s) eqn:Egt.
+        * exists s', (RErr MemoryErr). cbn [fst]. split; [reflexivity|]. split; [reflexivity|]. split; [exact Hi|].
+          split; [rewrite Hmx; exact Rm | intros k Hk; rewrite Hd; apply Rf; exact Hk].
+        * exists s', (RVal c). cbn [fst]. split; [reflexivity|]. split; [reflexivity|]. split; [exact Hi|].
+          split; [rewrite Hmx; exact Rm | intros k Hk; rewrite Hd; apply Rf; exact Hk].
+      + exists s', RUndef. cbn [fst]. split; [reflexivity|]. split; [reflexivity|]. split; [exact Hi|].
+        split; [rewrite Hmx; exact Rm | intros k Hk; rewrite Hd; apply Rf; exact Hk].
+    - destruct (unload_inv s n I) as (Hi & Hd & Hmx). exists (unload_file C s n), RNone. cbn [fst].
+      split; [reflexivity|]. split; [reflexivity|]. split; [exact Hi|].
+      split; [rewrite Hmx; exact Rm | intros k Hk; rewrite Hd; apply Rf; exact Hk].
+    - exists (reopen C s mx), RNone. cbn [fst]. split; [reflexivity|]. split; [reflexivity|].
+      split; [apply open_inv; [exact (inv_disk _ I) | exact Hok]|].
+      split; [reflexivity | intros k Hk; apply Rf; exact Hk].
+  Qed.
+
+  Lemma run_refines : forall ops s sp, Inv s -> Rel s sp -> Forall op_ok ops ->
+    snd (kvs_run C clen cmem dirsize true s ops) = snd (spec_run C clen sp ops) /\
+    Inv (fst (kvs_run C clen cmem dirsize true s ops)) /\
+    Rel (fst (kvs_run C clen cmem dirsize true s ops)) (fst (spec_run C clen sp ops)).
+  Proof.
+    induction ops as [|o ops IH]; intros s sp I R Hok; [simpl; auto|].
+    inversion Hok as [|? ? Ho Hops]; subst.
+    destruct (step_refines s sp o I R Ho) as (s' & x & Hk & Hs & Hi & Hr).
+    cbn [kvs_run spec_run]. rewrite Hk, Hs.
+    destruct (IH s' (fst (spec_step C clen sp o)) Hi Hr Hops) as (E1 & E2 & E3).
+    destruct (kvs_run C clen cmem dirsize true s' ops) as [s2 xs] eqn:Ek.
+    destruct (spec_run C clen (fst (spec_step C clen sp o)) ops) as [sp2 ys] eqn:Es.
+    cbn [fst snd] in *. subst ys. auto.
+  Qed.
+
+  Lemma step_inv s o : Inv s -> op_ok o -> Inv (fst (kvs_step C clen cmem dirsize true s o)).
+  Proof.
+    intros I Hok. destruct o as [n c t|n t|n|mx]; cbn [kvs_step op_ok] in *.
+    - pose proof (update_inv s n c t I Hok) as U. destruct (clen c >? c_max C s).
+      + rewrite U. exact I.
+      + destruct U as (s' & Hu & Hi & _). rewrite Hu. exact Hi.
+    - destruct (get_inv s n t I Hok) as (s' & Hg & Hi & _). rewrite Hg.
+      destruct (file_of C (lookup C (c_disk C s) n)) as [c|]; [destruct (clen c >? c_max C s)|]; exact Hi.
+    - apply unload_inv. exact I.
+    - apply open_inv; [exact (inv_disk _ I) | exact Hok].
+  Qed.
+
+  Lemma run_inv : forall ops s, Inv s -> Forall op_ok ops -> Inv (fst (kvs_run C clen cmem dirsize true s ops)).
+  Proof.
+    induction ops as [|o ops IH]; intros s I Hok; [exact I|].
+    inversion Hok as [|? ? Ho Hops]; subst. cbn [kvs_run].
+    pose proof (step_inv s o I Ho) as Hi.
+    destruct (kvs_step C clen cmem dirsize true s o) as [s1 x]. cbn [fst] in Hi.
+    pose proof (IH s1 Hi Hops) as H2.
+    destruct (kvs_run C clen cmem dirsize true s1 ops) as [s2 xs]. exact H2.
+  Qed.
+
+  (* what the invariant says, in the words of the property *)
+  Definition accounting (s : cache) : Prop :=
+    c_mem C s = sumb (c_entries C s) /\ 0 <= c_mem C s <= c_max C s /\
+    (forall m e, assoc (c_entries C s) m = Some e ->
+        e_writing C e = false /\ exists c, e_fut C e = FOk c /\ lookup C (c_disk C s) m = Some (File c) /\ e_bytes C e = cmem c) /\
+    NoDup (keys (c_entries C s)) /\ NoDup (hnames (c_heap C s)) /\
+    (forall m, In m (hnames (c_heap C s)) <-> In m (keys (c_entries C s))).
+
+  Lemma inv_accounting s : Inv s -> accounting s.
+  Proof. intros [I1 I2 I3 I4 I5 I6 I7 I8]. unfold accounting. repeat split; try assumption; try apply I6; apply I3. Qed.
+
+  Theorem accounting_all_histories d0 mx ops :
+    disk_ok C K d0 -> 0 <= mx -> Forall op_ok ops ->
+    accounting (fst (kvs_run C clen cmem dirsize true (open_cache C d0 mx) ops)).
+  Proof. intros Hd Hmx Hok. apply inv_accounting, run_inv; [apply open_inv; assumption | exact Hok]. Qed.
+
+  Theorem refines_dictionary d0 m0 mx ops :
+    disk_ok C K d0 -> 0 <= mx -> (forall k, In k K -> assoc m0 k = file_of C (lookup C d0 k)) -> Forall op_ok ops ->
+    snd (kvs_run C clen cmem dirsize true (open_cache C d0 mx) ops) = snd (spec_run C clen (mkS C m0 (norm_max mx)) ops).
+  Proof.
+    intros Hd Hmx Hm Hok.
+    apply (run_refines ops (open_cache C d0 mx) (mkS C m0 (norm_max mx))); [apply open_inv; assumption | | exact Hok].
+    split; [reflexivity | exact Hm].
+  Qed.
+
+  Lemma disk_ok_empty : disk_ok C K [].
+  Proof.
+    intros n Hn. destruct HK as [Hnil _]. destruct n as [|x n]; [contradiction|]. split; [simpl; discriminate|].
+    intros q Hq _ [c Hc]. destruct q; [contradiction | simpl in Hc; discriminate].
+  Qed.
 End CacheProofs.
+
+(* ---------------------------------------------------------------- table merge *)
+Lemma first_row_app i a b : first_row i (a ++ b) = match first_row i a with Some v => Some v | None => first_row i b end.
+Proof. induction a as [|x a IH]; simpl; [reflexivity|]. destruct (Z.eqb (fst x) i); [reflexivity | exact IH]. Qed.
+
+Lemma first_row_insert i x : forall l, first_row i (insert_left x l) = if Z.eqb (fst x) i then Some (snd x) else first_row i l.
+Proof.
+  induction l as [|y l IH]; simpl; [reflexivity|].
+  destruct (Z.leb (fst x) (fst y)) eqn:E; simpl; [reflexivity|].
+  rewrite IH. apply Z.leb_gt in E.
+  destruct (Z.eqb (fst y) i) eqn:Ey; [|reflexivity].
+  apply Z.eqb_eq in Ey. destruct (Z.eqb (fst x) i) eqn:Ex; [apply Z.eqb_eq in Ex; lia | reflexivity].
+Qed.
+
+Lemma first_row_sort i : forall l, first_row i (sort_index l) = first_row i l.
+Proof. induction l as [|x l IH]; simpl; [reflexivity|]. rewrite first_row_insert, IH. reflexivity. Qed.
+
+Lemma first_row_dedup i : forall l seen,
+  first_row i (dedup_first seen l) = if existsb (Z.eqb i) seen then None else first_row i l.
+Proof.
+  induction l as [|x l IH]; intros seen; simpl; [destruct (existsb _ seen); reflexivity|].
+  destruct (existsb (Z.eqb (fst x)) seen) eqn:Es.
+  - rewrite IH. destruct (existsb (Z.eqb i) seen) eqn:Ei; [reflexivity|].
+    destruct (Z.eqb (fst x) i) eqn:Ex; [|reflexivity]. apply Z.eqb_eq in Ex. rewrite Ex in Es. congruence.
+  - simpl. destruct (Z.eqb (fst x) i) eqn:Ex.
+    + apply Z.eqb_eq in Ex. rewrite <- Ex, Es. reflexivity.
+    + rewrite IH. simpl. rewrite Z.eqb_sym, Ex. reflexivity.
+Qed.
+
+Theorem merge_existing_rows_win old new i :
+  first_row i (merge_frames old new) = match first_row i old with Some v => Some v | None => first_row i new end.
+Proof. unfold merge_frames. rewrite first_row_dedup. simpl. rewrite first_row_sort. apply first_row_app. Qed.
+
+Lemma dedup_notin : forall l seen x, In x (dedup_first seen l) -> existsb (Z.eqb (fst x)) seen = false /\ In x l.
+Proof.
+  induction l as [|y l IH]; intros seen x; simpl; [tauto|].
+  destruct (existsb (Z.eqb (fst y)) seen) eqn:Es.
+  - intros H. destruct (IH _ _ H). auto.
+  - intros [<-|H]; [auto|]. destruct (IH _ _ H) as [H1 H2]. simpl in H1. apply orb_false_iff in H1. tauto.
+Qed.
+
+Lemma dedup_nodup : forall l seen, NoDup (map fst (dedup_first seen l)).
+Proof.
+  induction l as [|y l IH]; intros seen; simpl; [constructor|].
+  destruct (existsb (Z.eqb (fst y)) seen); [apply IH|]. simpl. constructor; [|apply IH].
+  intros H. apply in_map_iff in H. destruct H as (x & Hx & Hin). apply dedup_notin in Hin. destruct Hin as [H1 _].
+  simpl in H1. rewrite Hx, Z.eqb_refl in H1. discriminate.
+Qed.
+
+Theorem merge_index_unique old new : NoDup (map fst (merge_frames old new)).
+Proof. apply dedup_nodup. Qed.
+
+Definition le_row (a b : row) : Prop := fst a <= fst b.
+
+Lemma insert_left_in x : forall l y, In y (insert_left x l) <-> y = x \/ In y l.
+Proof.
+  induction l as [|z l IH]; intros y; simpl; [intuition|].
+  destruct (Z.leb (fst x) (fst z)); simpl; [intuition|]. rewrite IH. intuition.
+Qed.
+
+Lemma insert_left_sorted x : forall l, Sorted.StronglySorted le_row l -> Sorted.StronglySorted le_row (insert_left x l).
+Proof.
+  induction l as [|z l IH]; intros H; simpl; [constructor; constructor|].
+  inversion H as [|? ? Hs Hf]; subst.
+  destruct (Z.leb (fst x) (fst z)) eqn:E.
+  - apply Z.leb_le in E. constructor; [exact H|]. constructor; [exact E|].
+    rewrite Forall_forall in *. intros y Hy. specialize (Hf y Hy). unfold le_row in *. lia.
+  - apply Z.leb_gt in E. constructor; [apply IH; exact Hs|].
+    rewrite Forall_forall in *. intros y Hy. apply insert_left_in in Hy. destruct Hy as [->|Hy]; [unfold le_row; lia | apply Hf; exact Hy].
+Qed.
+
+Lemma sort_index_sorted : forall l, Sorted.StronglySorted le_row (sort_index l).
+Proof. induction l as [|x l IH]; simpl; [constructor | apply insert_left_sorted; exact IH]. Qed.
+
+Lemma dedup_sorted : forall l seen, Sorted.StronglySorted le_row l -> Sorted.StronglySorted le_row (dedup_first seen l).
+Proof.
+  induction l as [|y l IH]; intros seen H; simpl; [constructor|]. inversion H as [|? ? Hs Hf]; subst.
+  destruct (existsb (Z.eqb (fst y)) seen); [apply IH; exact Hs|]. constructor; [apply IH; exact Hs|].
+  rewrite Forall_forall in *. intros x Hx. apply dedup_notin in Hx. apply Hf. tauto.
+Qed.
+
+Theorem merge_sorted old new : Sorted.StronglySorted le_row (merge_frames old new).
+Proof. apply dedup_sorted, sort_index_sorted. Qed.
